@@ -23,23 +23,24 @@ def lib():
     return hexital, indicators, Candle, CandleManager, Hexital
 
 
-def sym_ohlcv(ctx, i, prefix=""):
-    """one well-formed candle's values: 0 < low <= open,close <= high <= 1e6, 0 <= volume <= 1e9"""
-    o = ctx.real(f"{prefix}o{i}", 0, PRICE_HI, lo_strict=True)
-    h = ctx.real(f"{prefix}h{i}", 0, PRICE_HI, lo_strict=True)
-    l = ctx.real(f"{prefix}l{i}", 0, PRICE_HI, lo_strict=True)
-    c = ctx.real(f"{prefix}c{i}", 0, PRICE_HI, lo_strict=True)
+def sym_ohlcv(ctx, i, prefix="", zero_ok=False):
+    """one well-formed candle's values: 0 < low <= open,close <= high <= 1e6, 0 <= volume <= 1e9
+    (zero_ok: prices may be exactly 0 - for the properties that are not about price ratios)"""
+    o = ctx.real(f"{prefix}o{i}", 0, PRICE_HI, lo_strict=not zero_ok)
+    h = ctx.real(f"{prefix}h{i}", 0, PRICE_HI, lo_strict=not zero_ok)
+    l = ctx.real(f"{prefix}l{i}", 0, PRICE_HI, lo_strict=not zero_ok)
+    c = ctx.real(f"{prefix}c{i}", 0, PRICE_HI, lo_strict=not zero_ok)
     v = ctx.real(f"{prefix}v{i}", 0, VOL_HI)
     ctx.assume((l <= o) & (l <= c) & (o <= h) & (c <= h))
     return o, h, l, c, v
 
 
-def mk_candles(ctx, n, step=60, start=GRID0 + 60, prefix=""):
+def mk_candles(ctx, n, step=60, start=GRID0 + 60, prefix="", zero_ok=False):
     """n symbolic candles on a concrete regular time grid"""
     _, _, Candle, _, _ = lib()
     out = []
     for i in range(n):
-        o, h, l, c, v = sym_ohlcv(ctx, i, prefix)
+        o, h, l, c, v = sym_ohlcv(ctx, i, prefix, zero_ok)
         out.append(Candle(o, h, l, c, v, timestamp=ctx.const_time(start + i * step)))
     return out
 
